@@ -72,6 +72,11 @@ var zzC07Carriers = []string{
 	"values-arg",      // 52 (values m HOLE)
 	"return-value",    // 53 (return-from b0 HOLE)
 	"with-open-file",  // 54 (with-open-file (fs "/dev/null") (setq zzstream fs) m HOLE m)
+	"dolist-body-t1",  // 55 (dolist (el (list m m)) tbN (setq n (1+ n)) HOLE m tfN)          the backward tag is the FIRST body element, the forward tag the last
+	"dotimes-body-t1", // 56 (dotimes (i cnt) tbN (setq n (1+ n)) HOLE m tfN)
+	"do-body-t1",      // 57 (do ((i 0 (1+ i))) ((= i cnt) m) tbN (setq n (1+ n)) HOLE m tfN)
+	"dox-body-t1",     // 58 (do* ((i 0 (1+ i))) ((= i cnt) m) tbN (setq n (1+ n)) HOLE m tfN)
+	"tagbody-t1",      // 59 (tagbody tbN (setq n (1+ n)) HOLE m tfN)
 }
 
 const (
@@ -264,6 +269,25 @@ func (g *zzC07Gen) build(cs []int, ex int, cx zzC07Ctx, level int) slip.Object {
 	case "dolist-body":
 		c2 := cx.withBlock("nil").withTags(S("tb"+lv), S("tf"+lv))
 		return zzL(S("dolist"), zzL(S("el"), zzL(S("list"), g.m(), g.m())), g.m(), S("tb"+lv), inc, hole(c2), g.m(), S("tf"+lv), g.m())
+	case "dolist-body-t1":
+		c2 := cx.withBlock("nil").withTags(S("tb"+lv), S("tf"+lv))
+		return zzL(S("dolist"), zzL(S("el"), zzL(S("list"), g.m(), g.m())), S("tb"+lv), inc, hole(c2), g.m(), S("tf"+lv))
+	case "dotimes-body-t1":
+		c2 := cx.withBlock("nil").withTags(S("tb"+lv), S("tf"+lv))
+		return zzL(S("dotimes"), zzL(S("i"), g.m()), S("tb"+lv), inc, hole(c2), g.m(), S("tf"+lv))
+	case "do-body-t1", "dox-body-t1":
+		op := "do"
+		if zzC07Carriers[cs[0]] == "dox-body-t1" {
+			op = "do*"
+		}
+		c2 := cx.withBlock("nil").withTags(S("tb"+lv), S("tf"+lv))
+		cnt := g.m()
+		res := g.m()
+		return zzL(S(op), zzL(zzL(S("i"), slip.Fixnum(0), zzL(S("1+"), S("i")))), zzL(zzL(S("="), S("i"), cnt), res),
+			S("tb"+lv), inc, hole(c2), g.m(), S("tf"+lv))
+	case "tagbody-t1":
+		c2 := cx.withTags(S("tb"+lv), S("tf"+lv))
+		return zzL(S("tagbody"), S("tb"+lv), inc, hole(c2), g.m(), S("tf"+lv))
 	case "dolist-list":
 		return zzL(S("dolist"), zzL(S("el"), hole(cx)), g.m())
 	case "dolist-result":
